@@ -32,6 +32,7 @@ type tierCfg struct {
 	Solver          string         `json:"solver"`
 	Skip            bool           `json:"skip"`
 	OneShot         bool           `json:"oneshot"`
+	MaxViolations   int            `json:"max_violations"`
 	FallbackMs      int            `json:"fallback_ms"`
 }
 
@@ -229,6 +230,9 @@ func cmdRun(id string, args []string) int {
 			cfg.Deadline = time.Now().Add(time.Duration(tc.TimeoutS) * time.Second)
 		}
 		cfg.Stubs = h.Stubs
+		if tc.MaxViolations > 0 {
+			cfg.MaxViolations = tc.MaxViolations
+		}
 		cfg.OneShot = tc.OneShot
 		if tc.FallbackMs > 0 {
 			cfg.FallbackMs = tc.FallbackMs
@@ -281,11 +285,17 @@ func cmdRun(id string, args []string) int {
 
 	// verdict
 	violations := 0
+	knownPrinted := map[string]bool{}
+	knownCount := 0
 	for _, hr := range results {
 		rep := hr.Report
 		for _, c := range hr.Confirmed {
 			if c.Known != nil {
-				fmt.Printf("KNOWN-FINDING: property=%s %s\n", id, c.Known.What)
+				if !knownPrinted[c.Known.What] {
+					knownPrinted[c.Known.What] = true
+					fmt.Printf("KNOWN-FINDING: property=%s %s\n", id, c.Known.What)
+				}
+				knownCount++
 				continue
 			}
 			violations++
@@ -336,6 +346,7 @@ func cmdRun(id string, args []string) int {
 		}
 	}
 	writeEvidence(id, *tier, seed, sp, results, time.Since(t0), loadT, violations, inconclusive)
+	_ = knownCount
 	if exit == 0 && inconclusive {
 		return 2
 	}
